@@ -194,6 +194,12 @@ func (sc *cpxScript) apply(w *engcWorld, b *engcBlockBuilder) {
 			GlobalStateSchema: basics.StateSchema{NumUint: 1, NumByteSlice: 2}, LocalStateSchema: basics.StateSchema{NumByteSlice: 1}})
 		_ = b.Submit([]string{"acfg-create"}, &txntest.Txn{Type: protocol.AssetConfigTx, Sender: rich,
 			AssetParams: basics.AssetParams{Total: 1_000_000, UnitName: "cpx", Manager: rich, Reserve: rich}})
+		// boundary creatables: an asset with EVERY parameter at its default (total 0, no names, no addresses; stored with
+		// the "empty asset" resource flag), an asset whose only non-default field is one address, an application with no
+		// state schema at all
+		_ = b.Submit([]string{"acfg-create"}, &txntest.Txn{Type: protocol.AssetConfigTx, Sender: rich})
+		_ = b.Submit([]string{"acfg-create"}, &txntest.Txn{Type: protocol.AssetConfigTx, Sender: rich, AssetParams: basics.AssetParams{Clawback: other}})
+		_ = b.Submit([]string{"app-create"}, &txntest.Txn{Type: protocol.ApplicationCallTx, Sender: rich, ApprovalProgram: a, ClearStateProgram: cl})
 	case 2:
 		for _, id := range tip.CreatableIDs(basics.AppCreatable) {
 			if c, _ := tip.Creator(id, basics.AppCreatable); c == rich && sc.App == 0 {
